@@ -10,7 +10,9 @@
     [read_tables] files under the selected name. *)
 From Coq Require Import Ascii String List Bool Arith ZArith NArith.
 From PTBase Require Import Exn PyStr.
-From P Require Import ListingHistory HistoryFuel HistorySpec HistoryProofs HistoryRows.
+From PTBase Require Import PyNum PyVal.
+From PTModel Require Import Fortran.
+From P Require Import ListingHistory HistoryFuel HistorySpec HistoryProofs HistoryRows LineCells HistoryValues.
 Import ListNotations.
 Open Scope nat_scope.
 
@@ -95,6 +97,49 @@ Theorem example_repeated_row_layout : wf_keys ds_ex /\ offs_incr ds_ex /\ indice
   skiplines ds_ex = [0; 2; 0] /\ option_map d_off (stepped_line ds_ex 1) = Some 5.
 Proof. exact ds_ex_facts. Qed.
 Print Assumptions example_repeated_row_layout.
+
+(** ** the VALUES are the printed numbers (HistoryValues.v; line level copied from the C05 check) *)
+(** one TOUGH2-family table printed the TOUGH2 way (fixed-length key/index prefix, right-justified cells
+    in the layout's field widths, any cell texts, any repetitions and page breaks, a prelude without
+    results lines): what history() computes for row r and column col -- skip_to_results_line, readline()
+    counting to row_line[r], read_table_line, vals[col] -- is fortran_float of the text printed in that
+    column of the row's last printed line, the same line stepping leaves in row r *)
+Theorem table_value_is_printed_number : forall f prelude texts ds rr, t2_table f prelude texts ds rr ->
+  forall r i, nth_error (indices ds) r = Some i ->
+  exists d, stepped_line ds r = Some d /\ In d ds /\ nth_error (row_line ds) r = Some (d_off d) /\
+            forall col c, nth_error (r_cells (rr d)) col = Some c ->
+              read_cell f (prelude ++ texts) (d_off d) col = Ok (fortran_float (snd c) zero).
+Proof. exact t2_value_printed. Qed.
+Print Assumptions table_value_is_printed_number.
+
+(** AUTOUGH2 tables: the col-th blank-separated word after the value start of the row's line *)
+Theorem autough2_value_is_printed_number : forall f st prelude texts lineindex line words col w,
+  f_aut f = Some st -> forallb (fun l => negb (is_results_line (f_ef f) l)) prelude = true ->
+  match texts with l0 :: _ => is_results_line (f_ef f) l0 = true | [] => False end ->
+  nth_error texts lineindex = Some line -> split_ws (strip (pyslice (Some st) None line)) = words ->
+  nth_error words col = Some w ->
+  read_cell f (prelude ++ texts) lineindex col = Ok (fortran_float w zero).
+Proof. exact aut_value_printed. Qed.
+Print Assumptions autough2_value_is_printed_number.
+
+(** the composition: for EVERY well-formed file abstraction, covered selection, short flag and state, and
+    every text content in which the tables the items land on are printed tables ([printed_at]): whenever
+    the call returns, every value of every returned series is the number printed in that row and column
+    at that result set -- fortran_float of the cell text -- negated for a reversed connection name, and
+    the time array is that of the positions read *)
+Theorem history_values_are_printed_numbers : forall fuel F ms sel short s cs l s' content txt,
+  wf_file F = true -> wf_metas ms = true -> mapM (convert ms) sel = Ok cs -> covers F short (selected_tables cs) = true ->
+  history fuel F ms sel short s = Ok (HSeries l, s') ->
+  (forall c, In (Some c) cs -> forall ld, In ld (item_positions F short c (hsets F) 0) ->
+     printed_at (fst (content (l_at ld))) (snd (content (l_at ld))) (Z.to_nat (c_line c)) (Z.to_nat (c_col c)) (txt c (l_at ld))) ->
+  Forall2 (item_ok content txt F short) cs l.
+Proof. exact history_values. Qed.
+Print Assumptions history_values_are_printed_numbers.
+
+Theorem example_printed_table : read_cell ex_fmt (ex_prelude ++ ex_texts) 5 1 = Ok (VFloat (Fin true 215000 (-4))) /\
+                                row_line ds_ex = [0; 5; 4].
+Proof. exact ex_value. Qed.
+Print Assumptions example_printed_table.
 
 (** ** afterwards the reader shows the same current index, time, step and tables *)
 Theorem history_restores_cursor : forall fuel F ms sel short s r s',
